@@ -46,7 +46,7 @@ type HCond struct {
 }
 
 type HSink struct {
-	Kind string // mut mutQ restore txctl cache viewInc viewDec
+	Kind string // mut mutQ restore txctl cache viewInc viewDec refuse exempt viewSet
 	Name string
 	Pos  string
 }
@@ -92,6 +92,17 @@ type HFacts struct {
 	CallersOf    map[string][]string
 	ParsedFiles  []string
 	Unsupported  [][3]string
+	// round 3 (deepening)
+	FlagForeign  [][2]string // (function, expression): a test of isQuery / nestedView on something that is not the function's own context
+	CtxArgs      [][3]string // (function, callee or "executor{ctx}", argument): a *vmContext handed on that is not the function's own context
+	IsViewWrites [][2]string // (function, normalised right-hand side) of every assignment to executor.isView
+	SQLOpens     [][4]string // (function, driver, DSN text, class) of every database/sql Open
+	SQLExecs     [][3]string // (function, leading SQL text, class) of every Exec / ExecContext through database/sql
+	RoCallees    []string    // functions / methods of the state-bearing packages that the tables class as reads and the analysed code calls
+	IfaceImpls   [][3]string // (interface.method, class in the tables, implementation) for in-package interfaces classified by the tables
+	RefuseGuards [][2]string // (function, condition): flag-dependent branches whose taken arm returns an error
+	FlagBranches [][3]string // (function, condition, shape) of every branch whose condition tests a read-only flag
+	CheckViewRet []string    // what luaCheckView returns, normalised ("nestedView" if it is the own context's counter)
 }
 
 type HProgram struct {
@@ -136,6 +147,13 @@ type HTables struct {
 	QueryEntries map[string]bool
 	// assumptions on condition atoms
 	Assume []HAssume
+	// round 3
+	CtxBuilders    map[string]bool   // in-package constructors of a vmContext
+	ErrCtors       map[string]bool   // calls that build a non-nil error value / message ("C.CString", "errors.New", …)
+	SQLExecMethods map[string]bool   // "pkg.Type.Method" of database/sql that execute an SQL text
+	SQLPrefixes    [][2]string       // (leading SQL text, lower case; kind), first match wins
+	RefuseExempt   map[string]string // functions whose behaviour depends on a read-only flag without returning an error -> why that is accepted
+	TypedBenign    map[string]bool   // "Type.field": bookkeeping fields, valid only on receivers of that (in-package) type
 }
 
 type HAssume struct {
@@ -330,6 +348,9 @@ type hxExtractor struct {
 	assigns  map[string]int
 	locals   map[string]bool
 	inSwitch int
+	// round 3
+	assignRHS map[string][]ast.Expr
+	rhsText   string
 }
 
 func hxExprString(fset *token.FileSet, e ast.Node) string {
@@ -417,6 +438,7 @@ func HExtract(dir string, files []string, extDirs map[string]string, tab *HTable
 	for _, e := range entries {
 		x.enqueue(e.name)
 	}
+	x.ifaceImpls()
 	for len(x.queue) > 0 {
 		name := x.queue[0]
 		x.queue = x.queue[1:]
@@ -506,11 +528,19 @@ func (x *hxExtractor) function(name string, fd *ast.FuncDecl) *HFunc {
 	bind(fd.Recv, 1)
 	bind(fd.Type.Params, 1)
 	bind(fd.Type.Results, 2) // named results are assigned by every return
+	x.assignRHS = map[string][]ast.Expr{}
 	if fd.Body != nil {
 		x.countAssigns(fd.Body)
+		x.collectAssignRHS(fd.Body)
 		f.Body = x.block(fd.Body.List)
+		if name == "luaCheckView" {
+			x.checkViewRet(fd)
+		}
 	} else {
 		f.Body = hxSkip()
+	}
+	if _, ex := x.tab.RefuseExempt[name]; ex {
+		f.Body = hxSeq(&HStmt{Op: "sink", Sink: &HSink{Kind: "exempt", Name: "exempt: " + name, Pos: x.pos(fd)}, Pos: x.pos(fd)}, f.Body)
 	}
 	// assumptions of the reviewed table that apply to this function
 	for _, a := range x.tab.Assume {
@@ -641,7 +671,11 @@ func (x *hxExtractor) stmt(s ast.Stmt) *HStmt {
 		return x.effects(s.X)
 	case *ast.AssignStmt:
 		st := []*HStmt{x.effects(s.Rhs...)}
-		for _, l := range s.Lhs {
+		for i, l := range s.Lhs {
+			x.rhsText = "?"
+			if len(s.Lhs) == len(s.Rhs) {
+				x.rhsText = x.normText(s.Rhs[i])
+			}
 			st = append(st, x.write(l, "assign"))
 		}
 		x.bindAssign(s)
@@ -671,6 +705,9 @@ func (x *hxExtractor) stmt(s ast.Stmt) *HStmt {
 		}
 		return hxSeq(st...)
 	case *ast.ReturnStmt:
+		if x.refuses(s) {
+			return hxSeq(x.effects(s.Results...), x.sink("refuse", "error return", s), &HStmt{Op: "ret"})
+		}
 		return hxSeq(x.effects(s.Results...), &HStmt{Op: "ret"})
 	case *ast.BlockStmt:
 		return x.block(s.List)
@@ -681,6 +718,10 @@ func (x *hxExtractor) stmt(s ast.Stmt) *HStmt {
 		e := hxSkip()
 		if s.Else != nil {
 			e = x.stmt(s.Else)
+		}
+		if q, v := hxHasFlag(c); q || v {
+			x.prog.Facts.FlagBranches = append(x.prog.Facts.FlagBranches,
+				[3]string{x.fn.Name, hxCondText(c, x.fn.Atoms), "then=" + hBranchShape(t) + " else=" + hBranchShape(e)})
 		}
 		return hxSeq(init, eff, &HStmt{Op: "ite", C: c, T: t, E: e, Pos: x.pos(s)})
 	case *ast.ForStmt:
@@ -1158,6 +1199,15 @@ func (x *hxExtractor) exprEffects(e ast.Expr) *HStmt {
 }
 
 func (x *hxExtractor) compositeFacts(e *ast.CompositeLit) {
+	if hxBaseName(e.Type) == "executor" {
+		for _, el := range e.Elts {
+			if kv, ok := el.(*ast.KeyValueExpr); ok {
+				if id, ok := kv.Key.(*ast.Ident); ok && id.Name == "ctx" && !x.ownCtx(kv.Value, 0) {
+					x.prog.Facts.CtxArgs = append(x.prog.Facts.CtxArgs, [3]string{x.fn.Name, "executor{ctx}", hxExprString(x.fset, kv.Value)})
+				}
+			}
+		}
+	}
 	if hxBaseName(e.Type) != "vmContext" {
 		return
 	}
@@ -1178,6 +1228,7 @@ var hxBasicTypes = map[string]bool{"int": true, "int8": true, "int16": true, "in
 
 func (x *hxExtractor) kindStmt(kind, name string, n ast.Node) *HStmt {
 	if kind == "ro" {
+		x.noteRo(name)
 		return hxSkip()
 	}
 	return x.sink(kind, name, n)
@@ -1235,8 +1286,8 @@ func (x *hxExtractor) classify(c *ast.CallExpr, fun ast.Expr) *HStmt {
 		if k, ok := x.tab.Calls[f.Name]; ok {
 			return x.kindStmt(k, f.Name, c)
 		}
-		if _, ok := x.pkg.funcs[f.Name]; ok {
-			return x.callFn(f.Name, c)
+		if fd, ok := x.pkg.funcs[f.Name]; ok {
+			return hxSeq(x.ctxArgs(f.Name, fd, c), x.callFn(f.Name, c))
 		}
 		if hxBuiltins[f.Name] || hxBasicTypes[f.Name] {
 			return hxSkip()
@@ -1256,6 +1307,9 @@ func (x *hxExtractor) classify(c *ast.CallExpr, fun ast.Expr) *HStmt {
 				}
 				return hxSkip()
 			}
+			if st, ok := x.sqlCall(c, id.Name, m); ok {
+				return st
+			}
 			if k, ok := x.tab.Calls[q]; ok {
 				return x.kindStmt(k, q, c)
 			}
@@ -1273,10 +1327,23 @@ func (x *hxExtractor) classify(c *ast.CallExpr, fun ast.Expr) *HStmt {
 					return x.kindStmt(k, q, c)
 				}
 				if fd, fp := x.method("", tn, m, 0); fd != nil && fp == "" {
-					return x.callFn(hxFuncName(fd), c)
+					return hxSeq(x.ctxArgs(hxFuncName(fd), fd, c), x.callFn(hxFuncName(fd), c))
 				}
 				if hxBasicTypes[tn] {
 					return hxSkip()
+				}
+				// method promoted from an embedded type of a package that is not parsed (litetree embeds *sql.Conn)
+				for _, et := range x.embeddedExternal(tn, 0) {
+					i := strings.Index(et, ".")
+					if st, ok := x.sqlCall(c, et, m); ok {
+						return st
+					}
+					if k, ok := x.tab.Calls[et+"."+m]; ok {
+						return x.kindStmt(k, et+"."+m, c)
+					}
+					if x.tab.StatePkgs[et[:i]] {
+						return x.unknown("call of "+et+"."+m+" (promoted through "+tn+"; state-bearing type, unclassified method)", c)
+					}
 				}
 				if _, known := x.pkg.types[tn]; known {
 					return x.unknown("call of "+q+" (method not defined in the analysed files, not in the tables)", c)
@@ -1284,7 +1351,13 @@ func (x *hxExtractor) classify(c *ast.CallExpr, fun ast.Expr) *HStmt {
 				// type name not declared in the analysed files (other file of the package, or a type parameter)
 				return x.byName(m, c, tn)
 			}
+			if st, ok := x.sqlCall(c, tp+"."+tn, m); ok {
+				return st
+			}
 			if x.tab.StatePkgs[tp] {
+				if k, ok := x.tab.Calls[tp+"."+q]; ok {
+					return x.kindStmt(k, tp+"."+q, c)
+				}
 				if k, ok := x.tab.Calls[q]; ok {
 					return x.kindStmt(k, tp+"."+q, c)
 				}
@@ -1394,8 +1467,16 @@ func (x *hxExtractor) write(l ast.Expr, op string) *HStmt {
 				return hxSeq(pre...) // e.g. a *types.CallInfo being filled in
 			}
 		}
+		if t, p := x.typeOf(b.X); t != nil && p == "" {
+			if _, tn, ok := x.typeName(t, p); ok && x.tab.TypedBenign[tn+"."+f] {
+				return hxSeq(pre...)
+			}
+		}
 		if k, ok := x.tab.FieldSinks[f]; ok {
 			switch k {
+			case "viewset":
+				x.prog.Facts.IsViewWrites = append(x.prog.Facts.IsViewWrites, [2]string{x.fn.Name, x.rhsText})
+				return hxSeq(hxSeq(pre...), x.sink("viewSet", "isView := "+x.rhsText, l))
 			case "view":
 				x.prog.Facts.ViewWrites = append(x.prog.Facts.ViewWrites, [2]string{x.fn.Name, op})
 				switch op {
@@ -1495,7 +1576,7 @@ func hxIsField(e ast.Expr, f string) bool {
 }
 
 // flagTest recognises tests of vmContext.isQuery / vmContext.nestedView; returns (op, positive, ok).
-func hxFlagTest(e ast.Expr) (string, bool, bool) {
+func (x *hxExtractor) flagTest(e ast.Expr) (string, bool, bool) {
 	for {
 		if p, ok := e.(*ast.ParenExpr); ok {
 			e = p.X
@@ -1503,11 +1584,11 @@ func hxFlagTest(e ast.Expr) (string, bool, bool) {
 		}
 		break
 	}
-	if hxIsField(e, "isQuery") {
+	if x.flagField(e, "isQuery") {
 		return "query", true, true
 	}
 	if u, ok := e.(*ast.UnaryExpr); ok && u.Op == token.NOT {
-		if op, pos, ok := hxFlagTest(u.X); ok {
+		if op, pos, ok := x.flagTest(u.X); ok {
 			return op, !pos, true
 		}
 	}
@@ -1529,7 +1610,7 @@ func hxFlagTest(e ast.Expr) (string, bool, bool) {
 			op = token.LEQ
 		}
 	}
-	if hxIsField(l, "isQuery") {
+	if x.flagField(l, "isQuery") {
 		switch {
 		case op == token.EQL && hxIsLit(r, "true"), op == token.NEQ && hxIsLit(r, "false"):
 			return "query", true, true
@@ -1537,7 +1618,7 @@ func hxFlagTest(e ast.Expr) (string, bool, bool) {
 			return "query", false, true
 		}
 	}
-	if hxIsField(l, "nestedView") {
+	if x.flagField(l, "nestedView") {
 		switch {
 		case op == token.GTR && hxIsLit(r, "0"), op == token.NEQ && hxIsLit(r, "0"), op == token.GEQ && hxIsLit(r, "1"):
 			return "view", true, true
@@ -1575,6 +1656,9 @@ func (x *hxExtractor) stable(e ast.Expr) bool {
 				_ = c
 				return true
 			}
+			if x.isViewRead(v) {
+				return false // the executor's own isView: written only while the executor is built (fact isViewWrites)
+			}
 			ok = false
 		case *ast.CallExpr:
 			switch f := v.Fun.(type) {
@@ -1603,7 +1687,7 @@ func (x *hxExtractor) stable(e ast.Expr) bool {
 }
 
 func (x *hxExtractor) atom(e ast.Expr) *HCond {
-	txt := hxExprString(x.fset, e)
+	txt := x.normText(e)
 	for i, a := range x.fn.Atoms {
 		if a == txt {
 			return &HCond{Op: "atom", Atom: i}
@@ -1641,7 +1725,7 @@ func (x *hxExtractor) condExpr(e ast.Expr) *HCond {
 		}
 		break
 	}
-	if op, pos, ok := hxFlagTest(e); ok {
+	if op, pos, ok := x.flagTest(e); ok {
 		c := &HCond{Op: op}
 		if !pos {
 			c = &HCond{Op: "not", A: c}
@@ -1675,11 +1759,11 @@ func (x *hxExtractor) cond(e ast.Expr) (*HStmt, *HCond) {
 	switch {
 	case q && v && !hxIsRO(c):
 		// guard conjoined / combined with something else
-		x.prog.Facts.GuardWhen = append(x.prog.Facts.GuardWhen, [2]string{x.fn.Name, hxExprString(x.fset, e)})
+		x.prog.Facts.GuardWhen = append(x.prog.Facts.GuardWhen, [2]string{x.fn.Name, hxCondText(c, x.fn.Atoms)})
 	case q && !v:
-		x.prog.Facts.QueryOnly = append(x.prog.Facts.QueryOnly, [2]string{x.fn.Name, hxExprString(x.fset, e)})
+		x.prog.Facts.QueryOnly = append(x.prog.Facts.QueryOnly, [2]string{x.fn.Name, hxCondText(c, x.fn.Atoms)})
 	case v && !q:
-		x.prog.Facts.ViewOnly = append(x.prog.Facts.ViewOnly, [2]string{x.fn.Name, hxExprString(x.fset, e)})
+		x.prog.Facts.ViewOnly = append(x.prog.Facts.ViewOnly, [2]string{x.fn.Name, hxCondText(c, x.fn.Atoms)})
 	}
 	return eff, c
 }
